@@ -263,4 +263,12 @@ def run {V : Type} (vr : Variant) (k : Nat) : Conn V → List (Op V) → Conn V 
       let r2 := run vr k r.1 ops
       (r2.1, r.2 :: r2.2)
 
+/-- `BatchRequest.__aexit__` once `send_batch` has returned `(message, event)`: which future the
+    caller awaits after the message is written (`none`: nothing to wait for, `results = ()`).
+    `fixF19 = false` is the pinned tree, which hands `None` to `await`. -/
+def batchExit (fixF19 : Bool) (event : Option Nat) : Except PyExc (Option Nat) :=
+  match event with
+  | some t => .ok (some t)
+  | none => if fixF19 then .ok none else .error .typeError
+
 end Aiorpcx.C01
